@@ -118,9 +118,14 @@ if self._transaction is None:
 
 # ---------------------------------------------------------------------------------------------
 # op encoding (see coq/engine/TxnRun.v)
-BEGIN, NESTED, INS, CCOMMIT, CROLLBACK, CCLOSE, HCOMMIT, HROLLBACK, HCLOSE, HENTER, HEXIT = range(11)
+BEGIN, NESTED, INS, CCOMMIT, CROLLBACK, CCLOSE, HCOMMIT, HROLLBACK, HCLOSE, HENTER, HEXIT, FBEGIN, FROLLBACK = range(13)
+def _is_h(op):
+    return HCOMMIT <= op[0] <= HEXIT
+
+
 OPNAMES = ["begin", "begin_nested", "insert", "conn.commit", "conn.rollback", "conn.close",
-           "h.commit", "h.rollback", "h.close", "h.__enter__", "h.__exit__"]
+           "h.commit", "h.rollback", "h.close", "h.__enter__", "h.__exit__",
+           "arm-begin-listener", "arm-rollback-error"]
 
 
 # ---------------- the reference nested-transaction model (oracle; mirrors coq/engine/TxnSpec.v) ---
@@ -132,6 +137,8 @@ class Ref:
         self.kinds = []  # is_root per handle
         self.ctx = []  # innermost first
         self.closed = False
+        self.beginfail = 0  # environment: raising `begin` listener (0 none, 1 once, 2 always)
+        self.rbfail = False  # environment: the next DBAPI rollback reports an error
 
     def live(self, k):
         return any(h == k for h, _ in self.stack)
@@ -148,9 +155,19 @@ class Ref:
         self.stack.insert(0, [len(self.kinds), list(self.cur)])
         self.kinds.append(isroot)
 
+    def _begin_root(self):
+        """opening the root frame runs the `begin` listeners; returns raised"""
+        if self.beginfail == 0:
+            self._open(True)
+            return False
+        if self.beginfail == 1:
+            self.beginfail = 0
+        return True
+
     def _autobegin(self):
         if not self.stack:
-            self._open(True)
+            return self._begin_root()
+        return False
 
     def _below(self, k):
         for i, (h, _) in enumerate(self.stack):
@@ -163,8 +180,12 @@ class Ref:
         self.stack = []
 
     def _rollback_all(self):
+        """undoes all uncommitted work - also when the DBAPI rollback reports an error; returns raised"""
+        f = self.rbfail
+        self.rbfail = False
         self.cur = list(self.committed)
         self.stack = []
+        return f
 
     def _commit_handle(self, k):
         fr, _ = self._below(k)
@@ -176,10 +197,10 @@ class Ref:
     def _rollback_handle(self, k):
         fr, snap = self._below(k)
         if not fr:
-            self._rollback_all()
-        else:
-            self.stack = fr
-            self.cur = list(snap)
+            return self._rollback_all()
+        self.stack = fr
+        self.cur = list(snap)
+        return False
 
     def end_keeping_work(self, k):
         """oracle-follow only: the frames from k upwards are closed, the work stays"""
@@ -200,7 +221,7 @@ class Ref:
     # guard clauses (None = inside the guarded region, else the name of the excluded region)
     def gstep(self, op):
         c = op[0]
-        if c < HCOMMIT:
+        if c < HCOMMIT or c > HEXIT:
             return None
         k = op[1]
 
@@ -240,29 +261,37 @@ class Ref:
         if c == BEGIN:
             if self.blocked() or self.stack:
                 return True
-            self._open(True)
-            return False
+            return self._begin_root()
         if c == NESTED:
             if self.blocked():
                 return True
-            self._autobegin()
+            if self._autobegin():
+                return True
             self._open(False)
             return False
         if c == INS:
             if self.blocked():
                 return True
-            self._autobegin()
+            if self._autobegin():
+                return True
             self.cur.append(op[1])
             return False
         if c == CCOMMIT:
             if self.stack:
                 self._commit_all()
             return False
-        if c in (CROLLBACK, CCLOSE):
-            if self.stack:
-                self._rollback_all()
-            if c == CCLOSE:
-                self.closed = True
+        if c == CROLLBACK:
+            return self._rollback_all() if self.stack else False
+        if c == CCLOSE:
+            if self.stack and self._rollback_all():
+                return True  # the error propagates out of close(): the connection stays open
+            self.closed = True
+            return False
+        if c == FBEGIN:
+            self.beginfail = op[1]
+            return False
+        if c == FROLLBACK:
+            self.rbfail = bool(op[1])
             return False
         k = op[1]
         if k >= len(self.kinds):
@@ -273,20 +302,19 @@ class Ref:
             self._commit_handle(k)
             return False
         if c in (HROLLBACK, HCLOSE):
-            if self.live(k):
-                self._rollback_handle(k)
-            return False
+            return self._rollback_handle(k) if self.live(k) else False
         if c == HENTER:
             self.ctx.insert(0, k)
             return False
         if c == HEXIT:
+            raised = False
             if self.live(k):
                 if op[2]:
-                    self._rollback_handle(k)
+                    raised = self._rollback_handle(k)
                 else:
                     self._commit_handle(k)
             self.ctx = self.ctx[1:]
-            return False
+            return raised
         raise ValueError(op)
 
     def obs(self, raised, g):
@@ -299,7 +327,7 @@ def ref_run(ops):
     g = True
     for op in ops:
         region = None
-        k_ok = op[0] < HCOMMIT or op[1] < len(r.kinds)
+        k_ok = not _is_h(op) or op[1] < len(r.kinds)
         if k_ok:
             region = r.gstep(op)
         raised = r.step(op)
@@ -313,7 +341,7 @@ def ref_run(ops):
 
 # ---------------- generators ----------------
 def _all_ops(nh, v):
-    ops = [[BEGIN], [NESTED], [INS, v], [CCOMMIT], [CROLLBACK], [CCLOSE]]
+    ops = [[BEGIN], [NESTED], [INS, v], [CCOMMIT], [CROLLBACK], [CCLOSE], [FBEGIN, 1], [FROLLBACK, 1]]
     for k in range(nh):
         ops += [[HCOMMIT, k], [HROLLBACK, k], [HCLOSE, k], [HENTER, k], [HEXIT, k, 0], [HEXIT, k, 1]]
     return ops
@@ -362,6 +390,9 @@ def _rand_uniform(rng, n):
         if c == INS:
             ops.append([INS, v])
             v += 1
+        elif rng.random() < 0.06:
+            ops.append(rng.choice([[FBEGIN, 0], [FBEGIN, 1], [FBEGIN, 2], [FROLLBACK, 1], [FROLLBACK, 0]]))
+            continue
         else:
             ops.append([c])
         nh += 1 if c in (BEGIN, NESTED, INS) else 0
@@ -458,6 +489,57 @@ def _rand_with(rng, budget, misuse):
     return ops[: budget + 4]
 
 
+def _rand_faults(rng, maxlen):
+    """raising `begin` listeners (once / always / removed) around autobegin, and DBAPI rollbacks that
+    report an error while savepoints are open, each followed by more work and an outer commit"""
+    r = Ref()
+    ops = []
+    v = [1]
+
+    def emit(op):
+        ops.append(op)
+        r.step(op)
+
+    def work(n):
+        for _ in range(n):
+            x = rng.random()
+            nh = len(r.kinds)
+            if x < 0.4:
+                emit([INS, v[0]])
+                v[0] += 1
+            elif x < 0.6:
+                emit([NESTED])
+            elif x < 0.7:
+                emit([BEGIN])
+            elif x < 0.9 and nh:
+                livek = [h for h, _ in r.stack]
+                k = livek[0] if livek and rng.random() < 0.7 else rng.randrange(nh)
+                emit([rng.choice([HCOMMIT, HROLLBACK, HCLOSE]), k])
+            else:
+                emit([rng.choice([CCOMMIT, CROLLBACK])])
+
+    while len(ops) < maxlen:
+        if rng.random() < 0.5:
+            emit([FBEGIN, rng.choice([1, 1, 2])])
+            work(rng.randint(1, 3))
+            if rng.random() < 0.7:
+                emit([FBEGIN, 0])
+            work(rng.randint(1, 2))
+        else:
+            work(rng.randint(1, 3))
+            emit([FROLLBACK, 1])
+            nh = len(r.kinds)
+            x = rng.random()
+            if x < 0.5 or not r.stack:
+                emit([rng.choice([CROLLBACK, CROLLBACK, CCLOSE])])
+            else:
+                root = r.stack[-1][0]
+                emit([rng.choice([HROLLBACK, HCLOSE]), root])
+            work(rng.randint(1, 3))
+        emit([CCOMMIT])
+    return ops[: maxlen + 3]
+
+
 def _rand_out_of_order(rng, maxlen):
     """savepoint stacks with rows at every level, an out-of-order end of a non-innermost handle
     (directly or by leaving its with-block), some follow-up work, then the outer commit"""
@@ -547,6 +629,7 @@ def gen_cases(rng, tier):
         hist.append((_rand_guided(rng, rng.randint(4, maxlen), False), "random-wellformed"))
         hist.append((_rand_with(rng, rng.randint(4, maxlen), rng.random() < 0.5), "random-with"))
         hist.append((_rand_out_of_order(rng, min(maxlen, 12)), "random-out-of-order"))
+        hist.append((_rand_faults(rng, rng.randint(5, min(maxlen, 14))), "random-faults"))
     cases = [{"in": [0, h], "kind": k} for h, k in hist]
     # the oracle's reference model against the Coq reference model (no database involved)
     step = 1 if thorough else 5
@@ -566,7 +649,7 @@ def nontrivial(c):
         return False
     seen = False
     for o in ops:
-        if seen and o[0] >= CCOMMIT and o[0] != HENTER:
+        if seen and CCOMMIT <= o[0] <= HEXIT and o[0] != HENTER:
             return True
         seen = seen or o[0] == NESTED
     return False
@@ -574,6 +657,10 @@ def nontrivial(c):
 
 # ---------------- implementation side ----------------
 _ENV = {}
+
+
+class ListenerError(Exception):
+    pass
 
 
 def impl_setup():
@@ -596,7 +683,19 @@ def impl_setup():
     c0.execute("create table t (x integer)")
     c0.commit()
     c0.close()
-    eng = sa.create_engine("sqlite:///" + path, connect_args={"autocommit": False})
+    fault = {"begin": 0, "rollback": False}  # fault injection armed by the ops [11,m] / [12,b]
+
+    class FaultConn(sqlite3.Connection):
+        # the DBAPI rollback is performed and then reports an error (e.g. the acknowledgement is lost)
+        fail_next = False
+
+        def rollback(self):
+            sqlite3.Connection.rollback(self)
+            if self.fail_next:
+                self.fail_next = False
+                raise sqlite3.OperationalError("injected: rollback reported an error")
+
+    eng = sa.create_engine("sqlite:///" + path, connect_args={"autocommit": False, "factory": FaultConn})
     md = sa.MetaData()
     t = sa.Table("t", md, sa.Column("x", sa.Integer))
     log = []
@@ -607,9 +706,26 @@ def impl_setup():
                 log.append([tag])
         return fn
 
-    event.listen(eng, "begin", simple(0))
+    def on_begin(conn):
+        if conn.closed:
+            return
+        if fault["begin"]:  # the user's `begin` listener that raises
+            if fault["begin"] == 1:
+                fault["begin"] = 0
+            raise ListenerError("begin listener failed")
+        log.append([0])
+
+    def on_rollback(conn):
+        if conn.closed:
+            return
+        log.append([5])
+        if fault["rollback"]:  # only rollbacks issued by Connection._rollback_impl, not the pool reset
+            fault["rollback"] = False
+            conn.connection.dbapi_connection.fail_next = True
+
+    event.listen(eng, "begin", on_begin)
     event.listen(eng, "commit", simple(4))
-    event.listen(eng, "rollback", simple(5))
+    event.listen(eng, "rollback", on_rollback)
 
     @event.listens_for(eng, "before_cursor_execute")
     def bce(conn, cursor, statement, params, context, executemany):
@@ -626,7 +742,7 @@ def impl_setup():
         pass
     obs = sqlite3.connect(path, timeout=0.2)
     raw = sqlite3.connect(path, autocommit=False, timeout=0.2)
-    _ENV.update(eng=eng, t=t, log=log, obs=obs, raw=raw, sa=sa, warnings=warnings, path=path)
+    _ENV.update(eng=eng, t=t, log=log, obs=obs, raw=raw, sa=sa, warnings=warnings, path=path, fault=fault)
 
 
 def _visible():
@@ -660,6 +776,8 @@ def _code(ex):
         return 1
     if isinstance(ex, exc.OperationalError):
         return 4
+    if isinstance(ex, ListenerError):
+        return 8
     if isinstance(ex, AssertionError):
         return 5
     return 6
@@ -670,6 +788,9 @@ def _impl_hist(ops):
     warnings = E["warnings"]
     log = E["log"]
     t = E["t"]
+    fault = E["fault"]
+    fault["begin"] = 0
+    fault["rollback"] = False
     _reset_table()
     conn = E["eng"].connect()
     handles = []
@@ -686,7 +807,7 @@ def _impl_hist(ops):
     try:
         for op in ops:
             c = op[0]
-            if c >= HCOMMIT and op[1] >= len(handles):
+            if _is_h(op) and op[1] >= len(handles):
                 out.append([9])
                 continue
             del log[:]
@@ -723,6 +844,10 @@ def _impl_hist(ops):
                                 handles[op[1]].__exit__(type(ue), ue, ue.__traceback__)
                         else:
                             handles[op[1]].__exit__(None, None, None)
+                    elif c == FBEGIN:
+                        fault["begin"] = op[1]
+                    elif c == FROLLBACK:
+                        fault["rollback"] = bool(op[1])
                     else:
                         raise ValueError("bad op %r" % (op,))
                 except Exception as ex:  # noqa
@@ -744,6 +869,8 @@ def _impl_hist(ops):
                 _visible(),
             ])
     finally:
+        fault["begin"] = 0
+        fault["rollback"] = False
         try:
             with warnings.catch_warnings():
                 warnings.simplefilter("ignore")
@@ -838,7 +965,7 @@ def _judge(ops, obs):
             explained = (region, msg)
 
     for i, (op, o) in enumerate(zip(ops, obs)):
-        if op[0] >= HCOMMIT and op[1] >= len(r.kinds):
+        if _is_h(op) and op[1] >= len(r.kinds):
             if o != [9]:
                 return "step %d: handle numbering differs from the reference model" % i, explained
             continue
@@ -848,7 +975,7 @@ def _judge(ops, obs):
         if reg == "d":
             break  # with-block protocol not used as the with statement uses it: not judged further
         code, cmds, warns, in_t, in_n, ri, ni, act, vis = o
-        name = OPNAMES[op[0]] + ("(h%d)" % op[1] if op[0] >= HCOMMIT else "")
+        name = OPNAMES[op[0]] + ("(h%d)" % op[1] if _is_h(op) else "")
         ended_commit = op[0] == HCOMMIT and not r.live(op[1])
         proper = copy.deepcopy(r)
         raised = proper.step(op)
@@ -872,7 +999,7 @@ def _judge(ops, obs):
                     open_regions.append("a")  # the handles above it stay active (stale) as well
             elif code in (2, 4) and open_regions:
                 note(open_regions[0], msg)
-            elif "a" in open_regions and op[0] >= HCOMMIT and not r.live(op[1]):
+            elif "a" in open_regions and _is_h(op) and not r.live(op[1]):
                 # rollback/close/__exit__ of a stale (for the implementation still active) savepoint
                 # handle refused before reaching the database; for the reference model it is ended
                 note("a", msg)
